@@ -169,6 +169,7 @@ func runC08(r *vf.Run) {
 		}
 		r.Count("dataset_pairs", 1)
 	})
+	racePass(r)
 	r.Floor("grouped query executed >= 3 times across two indexes", r.GetCount("grouped_queries_executed_3plus_times") > 0)
 	r.Floor("an execution in between failed (index lacks a column)", r.GetCount("executions_expected_to_fail_in_between") > 0)
 }
